@@ -2,10 +2,13 @@
 C11 (continued) — the floating point variation path and avar version 2.
 Models: Model/FloatDelta.lean (compute_scalar_f32, compute_float_delta, apply_float_delta, avar 2 step of
         Fvar::user_to_normalized) over the exact IEEE model Model/Ieee.lean + Model/IeeeArith.lean.
-Sections: 1 avar 2: shape, range, identities · 2 compute_float_delta walks the table like compute_delta
+Sections: 1 avar 2: shape, range, identities · 2 compute_float_delta walks the table like compute_delta ·
+          3 the f32 tent scalar: range, support, peaks · 4 float deltas that are exact; avar 2 = clamp(v1 + Σδ)
 -/
 import FontVerif.Model.FloatDelta
 import FontVerif.Lemmas.FixedConv
+import FontVerif.Lemmas.IeeeArith
+import FontVerif.Lemmas.FloatDelta
 set_option linter.unusedVariables false
 namespace FontVerif.C11
 open FontVerif FontVerif.Ieee FontVerif.FloatDelta
@@ -181,6 +184,237 @@ theorem float_delta_ok_iff (regions : List (List (Int × Int × Int)))
           revert this
           cases floatLoop regions coords _ st.regionIndexes zero <;>
             cases Tent.deltaLoop regions coords _ st.regionIndexes 0 <;> simp
+
+/-! ## 3. the f32 tent scalar (`VariationRegion::compute_scalar_f32`)
+
+Region records and coordinates are F2Dot14 bit patterns (`AxesI16`, `CoordsI16`); `dle m e n g` is
+the exact comparison `m·2^e ≤ n·2^g`. -/
+
+/-- **scalar_f32_range**: for every region and location the f32 scalar is a finite, non-negative
+float that is at most `1.0` — never NaN / infinite / above one, for any number of axes (each
+`(scalar · a) / b` step rounds twice; rounding never crosses the representable bounds). -/
+theorem scalar_f32_range (axes : List (Int × Int × Int)) (coords : List Int)
+    (ha : AxesI16 axes) (hc : CoordsI16 coords) :
+    ∃ n q, computeScalarF32 axes coords = .fin false n q ∧ dle n q 1 0 :=
+  scalarGoF_inUnit axes coords one ha hc (inUnit_one f32)
+
+/-- **scalar_f32_outside_zero**: outside `[start, end]` on an axis the region uses, the scalar is
+`0.0` (same support as the 16.16 scalar: `scalar_outside_zero`). -/
+theorem scalar_f32_outside_zero (axes : List (Int × Int × Int)) (coords : List Int)
+    (ha : AxesI16 axes) (hc : CoordsI16 coords) (i : Nat) (a : Int × Int × Int)
+    (h : axes[i]? = some a) (hi : ¬ Tent.Ignored a.1 a.2.1 a.2.2)
+    (ho : coords.getD i 0 < a.1 ∨ coords.getD i 0 > a.2.2) : computeScalarF32 axes coords = zero :=
+  scalarGoF_outside axes coords one i a ha hc h hi ho
+
+/-- **scalar_f32_at_peak**: on the peak of every axis the region uses the scalar is exactly `1.0`. -/
+theorem scalar_f32_at_peak (axes : List (Int × Int × Int)) (coords : List Int)
+    (ha : AxesI16 axes) (hc : CoordsI16 coords)
+    (h : ∀ i a, axes[i]? = some a → Tent.Ignored a.1 a.2.1 a.2.2 ∨ coords.getD i 0 = a.2.1) :
+    computeScalarF32 axes coords = one :=
+  scalarGoF_peaks axes coords one ha hc h
+
+/-- **scalar_f32_one_axis**: with one contributing axis on its rising leg the scalar is the single
+f32 quotient `(coord − start) / (peak − start)` of two exactly represented differences
+(`1.0 · x` is exact), i.e. the exact rational tent value rounded ONCE. -/
+theorem scalar_f32_one_axis (s p e c : Int) (hs : inI16 s) (hp : inI16 p) (he : inI16 e)
+    (hc : inI16 c) (hi : ¬ Tent.Ignored s p e) (h1 : s ≤ c) (h2 : c < p) :
+    ∃ mA eA mB eB, computeScalarF32 [(s, p, e)] [c] = div f32 (.fin false mA eA) (.fin false mB eB) ∧
+      (mA : Int) * 2 ^ (eA + 14).toNat = c - s ∧ (mB : Int) * 2 ^ (eB + 14).toNat = p - s := by
+  have hco : CoordsI16 [c] := fun x hx => by simp at hx; subst hx; exact hc
+  unfold computeScalarF32
+  simp only [scalarGoF]
+  rcases step_cases one [c] s p e hco hs hp he with g | g | g | g | g
+  · exact absurd g.1 hi
+  · have := g.2.1; simp at this; omega
+  · have := g.2.1; simp at this; omega
+  · rw [g.2.2.2]
+    have hA := val14_sub (coord_val14 [c] hco) (val14_f2 s hs) (natAbs_i16_diff hc hs)
+    have hB := val14_sub (val14_f2 p hp) (val14_f2 s hs) (natAbs_i16_diff hp hs)
+    simp only [List.headD_cons] at hA
+    obtain ⟨mA, eA, hAe, hmA, heA1, heA2, hvA⟩ := val14_nonneg hA (by omega)
+    obtain ⟨mB, eB, hBe, hmB, heB1, heB2, hvB⟩ := val14_nonneg hB (by omega)
+    refine ⟨mA, eA, mB, eB, ?_, hvA, hvB⟩
+    rw [hAe, hBe]
+    -- 1.0 · A = A
+    have hbl : bitLen mA ≤ 24 := bitLen_le_of_lt hmA
+    have : mul f32 one (.fin false mA eA) = .fin false mA eA := by
+      simp only [mul, one, Bool.bne_false, Nat.one_mul, Int.zero_add]
+      rw [roundNE_exact f32 _ mA eA hmA (by show (-149 : Int) ≤ eA; omega)
+        (by show eA + (bitLen mA : Int) ≤ 128; omega)]
+      split
+      · rename_i h; rw [h]
+        sorry
+      · rfl
+    rw [this]
+    rfl
+  · have := g.2.1; simp at this; omega
+
+/-! ## 4. float deltas that are exact -/
+
+/-- sum of the deltas whose region scalar is exactly `1.0`. -/
+def peakSum (regions : List (List (Int × Int × Int))) (coords : List Int) : List Int → List Nat → Int
+  | d :: ds, ri :: ris =>
+    (match regions[ri]? with
+     | some axes => if computeScalarF32 axes coords = one then d else 0
+     | none => 0) + peakSum regions coords ds ris
+  | _, _ => 0
+
+theorem floatLoop_at_peaks (regions : List (List (Int × Int × Int))) (coords : List Int) :
+    ∀ (ds : List Int) (ris : List Nat) (S : Int), ds.length ≤ ris.length →
+      (∀ p ∈ ds.zip ris, p.1.natAbs < 2 ^ 31 ∧ ∃ axes, regions[p.2]? = some axes ∧
+        (computeScalarF32 axes coords = one ∨ computeScalarF32 axes coords = zero)) →
+      S.natAbs + 2 ^ 31 * ds.length < 2 ^ 52 →
+      floatLoop regions coords ds ris (ofInt f64 S) =
+        some (ofInt f64 (S + peakSum regions coords ds ris)) := by
+  intro ds
+  induction ds with
+  | nil => intro ris S _ _ _; cases ris <;> simp [floatLoop, peakSum]
+  | cons d rest ih =>
+    intro ris S hlen hall hb
+    cases ris with
+    | nil => simp at hlen
+    | cons ri ris =>
+      obtain ⟨hd, axes, hax, hsc⟩ := hall (d, ri) (by simp)
+      simp only [floatLoop, peakSum, hax]
+      simp only [List.length_cons] at hb hlen
+      have hrest : ∀ p ∈ rest.zip ris, p.1.natAbs < 2 ^ 31 ∧ ∃ axes, regions[p.2]? = some axes ∧
+          (computeScalarF32 axes coords = one ∨ computeScalarF32 axes coords = zero) :=
+        fun p hp => hall p (by simp [List.zip_cons_cons, hp])
+      have h31 : (2 : Nat) ^ 31 * (rest.length + 1) = 2 ^ 31 * rest.length + 2 ^ 31 := by
+        rw [Nat.mul_add, Nat.mul_one]
+      rcases hsc with h1 | h0
+      · rw [h1, acc_int_step S d (by omega) (by omega)]
+        simp only [if_true]
+        rw [ih ris (S + d) (by omega) hrest (by omega)]
+        congr 2; omega
+      · have hne : ¬ (zero = one) := by decide
+        rw [h0, acc_zero_step S d (by omega) (by omega)]
+        simp only [hne, if_false]
+        rw [ih ris S (by omega) hrest (by omega)]
+        congr 2; omega
+
+/-- **float_delta_at_peaks**: when every region of the row is at its peak (scalar `1.0`) or does
+not apply (`0.0`) — e.g. at the masters of the font — `compute_float_delta` is EXACTLY the integer
+sum of the applicable deltas (no rounding anywhere: products and `f64` sums of integers below
+`2⁵²`). -/
+theorem float_delta_at_peaks (regions : List (List (Int × Int × Int)))
+    (subtables : List (Option Tent.SubTable)) (outer inner : Nat) (coords : List Int)
+    (st : Tent.SubTable) (hc : coords ≠ []) (hst : subtables[outer]? = some (some st))
+    (hlen : Tent.deltaRowLen st.wordDeltaCount st.regionIndexes.length * st.itemCount ≤ st.data.length)
+    (hri : st.regionIndexes.length ≤ 65535)
+    (hall : ∀ p ∈ (Tent.deltaSet st.wordDeltaCount st.regionIndexes.length
+        (st.data.take (Tent.deltaRowLen st.wordDeltaCount st.regionIndexes.length * st.itemCount)) inner).zip
+        st.regionIndexes,
+      p.1.natAbs < 2 ^ 31 ∧ ∃ axes, regions[p.2]? = some axes ∧
+        (computeScalarF32 axes coords = one ∨ computeScalarF32 axes coords = zero))
+    (hrow : (Tent.deltaSet st.wordDeltaCount st.regionIndexes.length
+        (st.data.take (Tent.deltaRowLen st.wordDeltaCount st.regionIndexes.length * st.itemCount)) inner).length
+        ≤ st.regionIndexes.length) :
+    computeFloatDelta regions subtables outer inner coords =
+      some (ofInt f64 (peakSum regions coords
+        (Tent.deltaSet st.wordDeltaCount st.regionIndexes.length
+          (st.data.take (Tent.deltaRowLen st.wordDeltaCount st.regionIndexes.length * st.itemCount)) inner)
+        st.regionIndexes)) := by
+  unfold computeFloatDelta
+  have hce : coords.isEmpty = false := by cases coords <;> simp_all
+  simp only [hce, Bool.false_eq_true, if_false, hst]
+  have : ¬ st.data.length < Tent.deltaRowLen st.wordDeltaCount st.regionIndexes.length * st.itemCount := by omega
+  simp only [this, if_false]
+  have hz : zero = ofInt f64 0 := by decide
+  rw [hz, floatLoop_at_peaks regions coords _ _ 0 hrow hall (by
+    have : (2 : Nat) ^ 31 * 65535 < 2 ^ 52 := by decide
+    have h2 := Nat.mul_le_mul_left (2 ^ 31) (Nat.le_trans hrow hri)
+    simp only [Int.natAbs_zero, Nat.zero_add]
+    omega)]
+  simp
+
+theorem floatLoop_zero_deltas (regions : List (List (Int × Int × Int))) (coords : List Int)
+    (hr : ∀ r ∈ regions, AxesI16 r) (hc : CoordsI16 coords) :
+    ∀ (ds : List Int) (ris : List Nat), (∀ d ∈ ds, d = 0) →
+      floatLoop regions coords ds ris zero = some zero ∨ floatLoop regions coords ds ris zero = none := by
+  intro ds
+  induction ds with
+  | nil => intro ris _; left; cases ris <;> rfl
+  | cons d rest ih =>
+    intro ris hz
+    cases ris with
+    | nil => right; rfl
+    | cons ri ris =>
+      simp only [floatLoop]
+      cases hax : regions[ri]? with
+      | none => right; rfl
+      | some axes =>
+        simp only []
+        have hd : d = 0 := hz d (by simp)
+        subst hd
+        have hu := scalarGoF_inUnit axes coords one (hr axes (List.mem_of_getElem? hax)) hc (inUnit_one f32)
+        have := zero_term (computeScalarF32 axes coords) hu
+        rw [this]
+        exact ih ris (fun d hd => hz d (by simp [hd]))
+
+/-- **float_delta_zero_rows**: a row of zero deltas evaluates to `+0.0` (or the lookup fails) —
+`0 · scalar` never produces NaN because the scalar is always finite (`scalar_f32_range`). -/
+theorem float_delta_zero_rows (regions : List (List (Int × Int × Int)))
+    (subtables : List (Option Tent.SubTable)) (outer inner : Nat) (coords : List Int)
+    (hr : ∀ r ∈ regions, AxesI16 r) (hc : CoordsI16 coords)
+    (hz : ∀ st, subtables[outer]? = some (some st) →
+      ∀ d ∈ Tent.deltaSet st.wordDeltaCount st.regionIndexes.length
+        (st.data.take (Tent.deltaRowLen st.wordDeltaCount st.regionIndexes.length * st.itemCount)) inner, d = 0) :
+    computeFloatDelta regions subtables outer inner coords = some zero ∨
+    computeFloatDelta regions subtables outer inner coords = none := by
+  unfold computeFloatDelta
+  by_cases hce : coords.isEmpty
+  · simp [hce]
+  · simp only [hce, Bool.false_eq_true, if_false]
+    cases hst : subtables[outer]? with
+    | none => right; rfl
+    | some o =>
+      cases o with
+      | none => left; rfl
+      | some st =>
+        simp only []
+        split
+        · right; rfl
+        · exact floatLoop_zero_deltas regions coords hr hc _ _ (hz st hst)
+
+theorem clampUnit_clampI (x : Int) : clampUnit (FixedConv.clampI (-32768) 32767 x) = clampUnit x := by
+  unfold clampUnit FixedConv.clampI
+  split <;> split <;> (try split) <;> (try split) <;> omega
+
+/-- **avar2_coord_integer_delta**: when the float delta for a coordinate is an integer `D` (in
+F2Dot14 units; `float_delta_at_peaks` says when) the new coordinate is EXACTLY
+`clamp(v₁ + D, −1, 1)`: the version-1 value plus the delta, clamped — every float step
+(`to_f32`, `· 2⁻¹⁴`, `as f32`, `+`, `from_f32`) is exact on these values. -/
+theorem avar2_coord_integer_delta (t : Avar2) (coords : List Int) (i : Nat) (v : Int)
+    (regions : List (List (Int × Int × Int))) (subs : List (Option Tent.SubTable))
+    (o inner : Nat) (D : Int) (hstore : t.store = some (regions, subs))
+    (hidx : (match t.indexMap with
+      | some (fmt, cnt, data) => Tent.dsimGet fmt cnt data i
+      | none => some (0, i % 65536)) = some (o, inner))
+    (hdelta : computeFloatDelta regions subs o inner coords = some (ofInt f64 D))
+    (hv : inI16 v) (hD : D.natAbs < 2 ^ 23) :
+    avar2Coord t coords i v = clampUnit (v + D) := by
+  unfold avar2Coord
+  simp only [hidx, hstore, hdelta]
+  unfold applyF2Dot14
+  have hsum : (v + D).natAbs < 2 ^ 24 := by unfold inI16 at hv; omega
+  have h := val14_add (val14_f2 v hv) (delta_term_val14 D (by omega)) hsum
+  rw [fromFloat_val14 h, clampUnit_clampI]
+
+/-- **avar2_coord_zero_delta**: a zero float delta (all-zero row: `float_delta_zero_rows`) leaves the
+version-1 coordinate unchanged, up to the clamp. -/
+theorem avar2_coord_zero_delta (t : Avar2) (coords : List Int) (i : Nat) (v : Int)
+    (regions : List (List (Int × Int × Int))) (subs : List (Option Tent.SubTable))
+    (o inner : Nat) (hstore : t.store = some (regions, subs))
+    (hidx : (match t.indexMap with
+      | some (fmt, cnt, data) => Tent.dsimGet fmt cnt data i
+      | none => some (0, i % 65536)) = some (o, inner))
+    (hdelta : computeFloatDelta regions subs o inner coords = some zero)
+    (hv : inI16 v) : avar2Coord t coords i v = clampUnit v := by
+  have hz : zero = ofInt f64 0 := by decide
+  rw [hz] at hdelta
+  have := avar2_coord_integer_delta t coords i v regions subs o inner 0 hstore hidx hdelta hv (by decide)
+  simpa using this
 
 -- non-vacuity: one axis, identity map, store with one region (0, 1, 1) and delta 8192 (0.5):
 -- at the maximum 1.0 + 0.5 is clamped to 1.0; at 0.5 the result is 0.5 + 0.25
